@@ -14,7 +14,9 @@ P = {
  "C10": ("other", "Structurally sufficient: the default-header builder pushes each of the six required headers exactly once on every path with the required value (Vary provably names Origin), every reachable Response is built from the builder's result, no reachable code removes or re-creates those headers, and the serialiser iterates the whole list.",
          "must-pass-through / exactly-once CFG checks, who-may-construct and who-may-mutate rules, dataflow of the Vary value", "§4 C10"), "C11": ("other", "Every Access-Control-* header is built only in blocks dominated by the Origin-present test and, in restricted mode, by the true edge of an element-wise equality membership test (substring, prefix and case-insensitive operations are rejected); each grant takes its value from its own setting; the allow-all function is unreachable once the switch parsed to false (infeasible Err branches pruned).",
          "edge dominance, classification of the membership operation, dataflow pairing header<->setting, pruned CFG reachability", "§4 C11"), "C12": ("other", "Table agreement and order: the four sources are folded in the order defaults, environment, config file, command line (call order by dominance in set-up, bootstrap and main); the flag table has one distinct (short, long, variable) entry per setting; each default is paired with its own constant and guarded by 'variable unset'; every spelling documented in rws.command_line, rws.config.toml and rws.variables reaches a table entry and vice versa; the '_'->'-' mapping touches the key only; the setter writes on every accepting path; getters read their own variables.",
-         "constant/table extraction from MIR aggregates, call-order dominance, dataflow pairing, comparison with documentation files", "§4 C12"), "C14": None, "C15": None, "C17": None, "C18": None, "C19": None,
+         "constant/table extraction from MIR aggregates, call-order dominance, dataflow pairing, comparison with documentation files", "§4 C12"), "C14": ("other", "Four structural clauses: the Ok return of the request-line parser is dominated by the two split_once tests and the method / version membership tests (lists exhaustive against the ADTs, tokeniser is split_once on one space); all three header-line readers split at the first occurrence of the separator constant that the three serialisers write (name, ': ', value, CRLF per header); header lookup folds case on both sides; a non-UTF-8 head line returns Err. Round-trip equality of values is not decided.",
+         "edge dominance of the Ok return, exhaustiveness against ADT definitions, sibling agreement", "§4 C14"), "C15": ("other", "Structural clauses: the Ok return of the status-line parser is dominated by version-known, code-numeric, status-found and reason-equal tests; in both serialisers every framing header is pushed onto the Response value whose header vector the loop serialises (one genuine violation is a known finding); the server's serialiser suppresses the body by method tests only, so the siblings agree; multipart delimiters and the boundary parameter share one constant; the registered-status list covers the status struct exactly; no lossy UTF-8 decoding is reachable from the readers.",
+         "edge dominance, same-origin of push receiver vs iterated vector, sibling agreement, ADT exhaustiveness, who-may-call", "§4 C15"), "C17": None, "C18": None, "C19": None,
  "C04": ("other", "Sufficient modulo the reviewed tables: every potential panic site (unwrap/expect, documented-panicking std call, overflow/bounds/division assert, explicit panic) reachable from the connection roots is guarded by a dominating check, exempt by table or allowlisted with a reason; no input-driven recursion; exactly one response write on every path; error edges answer with the 400 constructor. Genuine residual defects are listed as known findings.",
          "MIR panic-site inventory + dominance-based guard recognition over the call graph; SCC recursion check; CFG path counting", "§4 C04"),
  "C06": ("other", "Structural: panics of request handling are contained by catch_unwind (cut-edge reachability from the worker loop), the accept loop returns only when the listener is exhausted, the queue lock is not held while a task runs, the worker loop has no exit; stack-exhausting recursion is reported.",
